@@ -1163,6 +1163,8 @@ pub fn prefixes(board: Board) -> Vec<Vec<Op>> {
     ];
     if board.is_126x() {
         v.push(vec![Op::PrepRx { mode: RxM::Duty, ch: 0 }, Op::StartRx]);
+        // a 16-bit sync word that is not the image of a single-byte word, then a configuration loss
+        v.push(vec![Op::SetSync { word: 0xAB12 }, Op::Sleep { warm: false }]);
     }
     v
 }
@@ -1348,7 +1350,9 @@ fn fragment(is126: bool) -> impl Strategy<Value = Vec<Op>> {
         1 => (0u8..4, ev_script(vec![Ev::Done, Ev::DoneDetected])).prop_map(|(ch, irq)| vec![Op::PrepCad { ch }, Op::Cad { irq }]),
         1 => Just(vec![Op::Init]),
         1 => (0u8..4).prop_map(|ch| vec![Op::Listen { ch }]),
-        1 => proptest::sample::select(vec![0x1424u16, 0x3444, 0x5464, 0xF4F4]).prop_map(|word| vec![Op::SetSync { word }]),
+        // SX126x: any 16-bit word is a legal sync word (also those that are not the image 0xY4Z4 of a
+        // single-byte word); the SX127x driver refuses words without a single-byte form
+        1 => proptest::sample::select(if is126 { vec![0x1424u16, 0x3444, 0x5464, 0xF4F4, 0xAB12, 0x0000, 0xFFFF, 0x1234, 0x4141] } else { vec![0x1424u16, 0x3444, 0x5464, 0xF4F4] }).prop_map(|word| vec![Op::SetSync { word }]),
         1 => proptest::sample::select(vec![vec![], vec![Ev::Done], vec![Ev::Spurious], vec![Ev::Timeout], vec![Ev::PreambleTimeout], vec![Ev::TimeoutDone]]).prop_map(|irq| vec![Op::WaitIrq { irq }]),
         // lone calls (mostly wrong-mode)
         1 => proptest::sample::select(vec![Op::Tx { irq: vec![Ev::Done] }, Op::StartRx, Op::Rx { irq: vec![Ev::Done] }, Op::CompleteRx { irq: vec![Ev::Done] }, Op::Cad { irq: vec![Ev::Done] }, Op::RxSwitch { ch: 1 }]).prop_map(|o| vec![o]),
